@@ -244,11 +244,13 @@ class _BaseODE:
 
     def _inv_mrb(self):
         """Decompose the rigid-body part of the mass matrix"""
-        if self.m is not None and self.rbsize:
+        if self.m is not None and len(self._rb):
+            # self.m is partitioned to the non-rf equations, so use the
+            # rigid-body indices relative to that partition:
             if self.unc:
-                mrb = self.m[self.rb]
+                mrb = self.m[self._rb]
             else:
-                mrb = self.m[np.ix_(self.rb, self.rb)]
+                mrb = self.m[np.ix_(self._rb, self._rb)]
             self.imrb = self._get_inv_m(mrb)
 
     def _assert_square(self, n, m, b, k):
